@@ -10,6 +10,7 @@ open AsyncsshModel
 structure WF (c : Chan) : Prop where
   s : WFs c
   exit : c.sendBuf = [] ∨ c.sendWindow = 0 ∨ c.sendPktsize = 0
+  pend : PendOK c
   unpaused : c.recvPaused = .no → c.recvBuf = []
   closeP : c.recvState = .closePending → c.recvPaused ≠ .no
   closePB : c.recvState = .closePending → c.recvBuf ≠ []
@@ -111,7 +112,7 @@ theorem step_writeEof_ok {c c' : Chan} {ms : List Msg} {os : List Out}
 theorem step_close_ok {c c' : Chan} {ms : List Msg} {os : List Out}
     (h : step c .close = .ok (c', ms, os)) :
     ∃ c1, ((c.sendState ≠ .closePending ∧ c.sendState ≠ .closed ∧
-            flushSend { c with sendState := .closePending } = some (c1, ms)) ∨
+            flushSend { c with sendEofPending := decide (c.sendState = .eofPending), sendState := .closePending } = some (c1, ms)) ∨
            ((c.sendState = .closePending ∨ c.sendState = .closed) ∧ c1 = c ∧ ms = [])) ∧
           ((c1.recvState ≠ .closed ∧ c' = (discardRecv c1).1 ∧ os = (discardRecv c1).2) ∨
            (c1.recvState = .closed ∧ c' = c1 ∧ os = [])) := by
@@ -243,7 +244,7 @@ theorem step_arm_ok {c c' : Chan} {k : Nat} {ms : List Msg} {os : List Out}
 theorem WF.of_sendSpec {c0 c c' : Chan} {ms : List Msg} (hw : WF c0) (sp : SendSpec c c' ms)
     (h1 : c.recvPaused = c0.recvPaused) (h2 : c.recvBuf = c0.recvBuf) (h3 : c.recvState = c0.recvState)
     (h4 : c.recvWindow = c0.recvWindow) (h5 : c.initWindow = c0.initWindow) : WF c' :=
-  ⟨sp.wf, sp.exit, by rw [sp.same.recvPaused, sp.same.recvBuf, h1, h2]; exact hw.unpaused,
+  ⟨sp.wf, sp.exit, sp.pendBuf, by rw [sp.same.recvPaused, sp.same.recvBuf, h1, h2]; exact hw.unpaused,
    by rw [sp.same.recvPaused, sp.same.recvState, h1, h3]; exact hw.closeP,
    by rw [sp.same.recvState, sp.same.recvBuf, h2, h3]; exact hw.closePB,
    by rw [sp.same.recvState, sp.same.recvBuf, h2, h3]; exact hw.closedR,
@@ -251,8 +252,8 @@ theorem WF.of_sendSpec {c0 c c' : Chan} {ms : List Msg} (hw : WF c0) (sp : SendS
 
 theorem WF.of_flushRecv {c c' : Chan} {ms : List Msg} {os : List Out} (sp : FlushRecvSpec c c' ms os)
     (hexit : c.sendBuf = [] ∨ c.sendWindow = 0 ∨ c.sendPktsize = 0) (hcl : c.recvState = .closed → c.recvBuf = [])
-    (hhalf : 2 * c.recvWindow ≥ c.initWindow) : WF c' :=
-  ⟨sp.eff.wfs, sp.exit hexit, sp.unpaused, sp.closeP, sp.closePB, sp.closedR hcl, sp.eff.half hhalf⟩
+    (hhalf : 2 * c.recvWindow ≥ c.initWindow) (hpend : PendOK c) : WF c' :=
+  ⟨sp.eff.wfs, sp.exit hexit, sp.pend hpend, sp.unpaused, sp.closeP, sp.closePB, sp.closedR hcl, sp.eff.half hhalf⟩
 
 theorem acceptData_cases (c : Chan) (bs : Bytes) (dt : DType) :
     (bs = [] ∧ acceptData c bs dt = (c, [], [])) ∨
@@ -282,14 +283,14 @@ theorem step_wf (c c' : Chan) (ev : Ev) (ms : List Msg) (os : List Out) (hw : WF
       exact hw.of_sendSpec (flushSend_spec _ _ _ hw0 h1) rfl rfl rfl rfl rfl
   | writeEof =>
     obtain ⟨h1, _⟩ := step_writeEof_ok h
-    obtain ⟨e, h2, h3, h4, h5, _, _, h7⟩ := writeEof_spec _ _ _ hw.s h1
-    exact ⟨e.wfs, h7 hw.exit, by rw [h4, h3]; exact hw.unpaused, by rw [h4, h2]; exact hw.closeP,
+    obtain ⟨e, h2, h3, h4, h5, _, _, h7, h8, _⟩ := writeEof_spec _ _ _ hw.s h1
+    exact ⟨e.wfs, h7 hw.exit, h8 hw.pend, by rw [h4, h3]; exact hw.unpaused, by rw [h4, h2]; exact hw.closeP,
       by rw [h2, h3]; exact hw.closePB, by rw [h2, h3]; exact hw.closedR, by rw [h5, e.cfg.initWindow]; exact hw.half⟩
   | close =>
     obtain ⟨c1, h1, h2⟩ := step_close_ok h
     have hw1 : WF c1 := by
       rcases h1 with ⟨hs1, hs2, h1⟩ | ⟨_, rfl, _⟩
-      · have hw0 : WFs { c with sendState := .closePending } :=
+      · have hw0 : WFs { c with sendEofPending := decide (c.sendState = .eofPending), sendState := .closePending } :=
           ⟨by simp only [ne_eq, reduceCtorEq, not_false_eq_true, iff_true]; exact hw.s.chanOpen.mpr hs2, by simp⟩
         exact hw.of_sendSpec (flushSend_spec _ _ _ hw0 h1) rfl rfl rfl rfl rfl
       · exact hw
@@ -297,7 +298,8 @@ theorem step_wf (c c' : Chan) (ev : Ev) (ms : List Msg) (os : List Out) (hw : WF
     · have hss := discardRecv_spec c1
       refine ⟨⟨by rw [hss.sendChanOpen, hss.sendState]; exact hw1.s.chanOpen,
                by rw [hss.sendState, hss.sendBuf]; exact hw1.s.drained⟩,
-              by rw [hss.sendBuf, hss.sendWindow, hss.cfg.sendPktsize]; exact hw1.exit, fun _ => hss.recvBuf, ?_, ?_,
+              by rw [hss.sendBuf, hss.sendWindow, hss.cfg.sendPktsize]; exact hw1.exit,
+              by unfold PendOK; rw [hss.sendState, hss.sendBuf]; exact hw1.pend, fun _ => hss.recvBuf, ?_, ?_,
               fun _ => hss.recvBuf, by rw [hss.recvWindow, hss.cfg.initWindow]; exact hw1.half⟩
       all_goals
         intro hcp
@@ -307,19 +309,19 @@ theorem step_wf (c c' : Chan) (ev : Ev) (ms : List Msg) (os : List Out) (hw : WF
     · exact hw1
   | pause =>
     obtain ⟨rfl, _, _⟩ := step_pause_ok h
-    exact ⟨⟨hw.s.chanOpen, hw.s.drained⟩, hw.exit, by simp, by simp, hw.closePB, hw.closedR, hw.half⟩
+    exact ⟨⟨hw.s.chanOpen, hw.s.drained⟩, hw.exit, hw.pend, by simp, by simp, hw.closePB, hw.closedR, hw.half⟩
   | resume =>
     rcases step_resume_ok h with ⟨_, h1⟩ | ⟨_, rfl, _⟩
     · have hw0 : WFs { c with recvPaused := .no } := ⟨hw.s.chanOpen, hw.s.drained⟩
-      exact WF.of_flushRecv (flushRecv_spec _ _ _ _ hw0 h1) hw.exit hw.closedR hw.half
+      exact WF.of_flushRecv (flushRecv_spec _ _ _ _ hw0 h1) hw.exit hw.closedR hw.half hw.pend
     · exact hw
   | armPause k =>
     obtain ⟨rfl, _, _⟩ := step_arm_ok h
-    exact ⟨⟨hw.s.chanOpen, hw.s.drained⟩, hw.exit, hw.unpaused, hw.closeP, hw.closePB, hw.closedR, hw.half⟩
+    exact ⟨⟨hw.s.chanOpen, hw.s.drained⟩, hw.exit, hw.pend, hw.unpaused, hw.closeP, hw.closePB, hw.closedR, hw.half⟩
   | startReading =>
     rcases step_start_ok h with ⟨_, h1⟩ | ⟨_, rfl, _⟩
     · have hw0 : WFs { c with recvPaused := .no } := ⟨hw.s.chanOpen, hw.s.drained⟩
-      exact WF.of_flushRecv (flushRecv_spec _ _ _ _ hw0 h1) hw.exit hw.closedR hw.half
+      exact WF.of_flushRecv (flushRecv_spec _ _ _ _ hw0 h1) hw.exit hw.closedR hw.half hw.pend
     · exact hw
   | recv m =>
     cases m with
@@ -329,14 +331,14 @@ theorem step_wf (c c' : Chan) (ev : Ev) (ms : List Msg) (os : List Out) (hw : WF
       · rw [h1] at ha; cases ha; exact hw
       · rw [h1] at ha; cases ha; exact hw
       · rw [h1] at ha; cases ha
-        exact ⟨⟨hw.s.chanOpen, hw.s.drained⟩, hw.exit, fun h2 => absurd h2 hp, hw.closeP,
+        exact ⟨⟨hw.s.chanOpen, hw.s.drained⟩, hw.exit, hw.pend, fun h2 => absurd h2 hp, hw.closeP,
           by intro h2; simp [hs] at h2, by intro h2; simp [hs] at h2, hw.half⟩
       · rw [h1] at ha
         obtain ⟨sp, _⟩ := deliverData_spec c bs dt
         rw [ha] at sp
         simp only at sp
         refine ⟨sp.same.wfs hw.s, by rw [sp.same.sendBuf, sp.same.sendWindow, sp.same.sendPktsize]; exact hw.exit,
-          fun _ => by rw [sp.recvBuf]; exact hw.unpaused hp, ?_, ?_, ?_, ?_⟩
+          by unfold PendOK; rw [sp.same.sendState, sp.same.sendBuf]; exact hw.pend, fun _ => by rw [sp.recvBuf]; exact hw.unpaused hp, ?_, ?_, ?_, ?_⟩
         · intro h2; rw [sp.same.recvState, hs] at h2; cases h2
         · intro h2; rw [sp.same.recvState, hs] at h2; cases h2
         · intro h2; rw [sp.same.recvState, hs] at h2; cases h2
@@ -348,7 +350,7 @@ theorem step_wf (c c' : Chan) (ev : Ev) (ms : List Msg) (os : List Out) (hw : WF
     | eof =>
       obtain ⟨_, h1⟩ := step_recv_eof_ok h
       have hw0 : WFs { c with recvState := .eofPending } := ⟨hw.s.chanOpen, hw.s.drained⟩
-      exact WF.of_flushRecv (flushRecv_spec _ _ _ _ hw0 h1) hw.exit (by simp) hw.half
+      exact WF.of_flushRecv (flushRecv_spec _ _ _ _ hw0 h1) hw.exit (by simp) hw.half hw.pend
     | close =>
       obtain ⟨_, ms1, h1, _⟩ := step_recv_close_ok h
       obtain ⟨hsr, hb, hwn, hst, hco, _, _, _, hwf⟩ := closeSend_spec c hw.s
@@ -357,6 +359,9 @@ theorem step_wf (c c' : Chan) (ev : Ev) (ms : List Msg) (os : List Out) (hw : WF
       exact WF.of_flushRecv (flushRecv_spec _ _ _ _ hw0 h1) (Or.inl hb) (by simp)
         (by show 2 * (closeSend c).1.recvWindow ≥ (closeSend c).1.initWindow
             rw [hsr.recvWindow, hsr.initWindow]; exact hw.half)
+        (by intro hs
+            have : (closeSend c).1.sendState = .eofPending ∨ (closeSend c).1.sendState = .closePending := hs
+            rw [hst] at this; simp at this)
 
 /-! ### what one step does, in the terms the composition invariants need -/
 
@@ -439,7 +444,7 @@ theorem step_sum (c c' : Chan) (ev : Ev) (ms : List Msg) (os : List Out) (hw : W
         (c1.sendChanOpen = true → c.sendChanOpen = true) := by
       rcases h1 with ⟨hs1, hs2, h1⟩ | ⟨_, hc1, hm1⟩
       · have hop : c.sendChanOpen = true := hw.s.chanOpen.mpr hs2
-        have hw0 : WFs { c with sendState := .closePending } :=
+        have hw0 : WFs { c with sendEofPending := decide (c.sendState = .eofPending), sendState := .closePending } :=
           ⟨by simp only [ne_eq, reduceCtorEq, not_false_eq_true, iff_true]; exact hop, by simp⟩
         have sp := flushSend_spec _ _ _ hw0 h1
         refine ⟨⟨sp.same.initWindow, sp.same.readTypes, sp.same.writeTypes, sp.same.eofKeep, sp.same.sendPktsize,
@@ -453,7 +458,7 @@ theorem step_sum (c c' : Chan) (ev : Ev) (ms : List Msg) (os : List Out) (hw : W
             Option.some.injEq, Prod.mk.injEq] at h1
           obtain ⟨rfl, rfl⟩ := h1
           simp [sStage, he, LinkOK]
-        · have : sStage c = sStage { c with sendState := .closePending } := by
+        · have : sStage c = sStage { c with sendEofPending := decide (c.sendState = .eofPending), sendState := .closePending } := by
             unfold sStage
             cases hs : c.sendState <;> simp_all
           rw [this]; exact sp.path
